@@ -775,8 +775,8 @@ pub fn run(tier: &str, seed: u64, em: &mut Emitter) {
     }
     let table = entries();
     let per_entry: usize = match tier {
-        "thorough" => 16_000,
-        _ => 1_900,
+        "thorough" => 32_000,
+        _ => 1_600,
     };
     let mut sup = Supervisor::default();
     let mut stop = false;
